@@ -592,13 +592,11 @@ theorem move_iff_not_in_lcs (S T : Tree) (m : List (Id × Id)) (u : List Id) (s 
 section WrapperProps
 open SqlglotModel.Diff.Wrapper
 
-/-- today's `diff()` leaves its inputs' `_hash` caches as it found them or empty (both branches of the `finally` guard
-    after fix 6c26962), whatever the ChangeDistiller hashes meanwhile -/
+/-- today's `diff()` (after b176b7b) leaves every input node's `_hash` cache exactly as it found it, in both branches,
+    whatever the ChangeDistiller hashes meanwhile; objects outside the inputs and the copies are never touched -/
 theorem diff_leaves_inputs_untouched (sw tw : Walk) (fs ft : Nat → Id) (hasM : Bool) (touched hash0 : Id → Bool)
     (hfs : ∀ i, fs i ∉ objs sw ++ objs tw) (hft : ∀ i, ft i ∉ objs sw ++ objs tw) :
-    (∀ x ∈ objs sw ++ objs tw,
-      (runDiff today sw tw fs ft hasM touched hash0).hashAfter x =
-        if (needCopy sw tw && hasM) = true then hash0 x else false) ∧
+    (∀ x ∈ objs sw ++ objs tw, (runDiff today sw tw fs ft hasM touched hash0).hashAfter x = hash0 x) ∧
     (∀ y, y ∉ objs sw ++ objs tw →
       y ∉ objs (runDiff today sw tw fs ft hasM touched hash0).seenS ++ objs (runDiff today sw tw fs ft hasM touched hash0).seenT →
       (runDiff today sw tw fs ft hasM touched hash0).hashAfter y = hash0 y) :=
@@ -632,8 +630,25 @@ theorem only_source_copied_witness :
     consistentB (runDiff today graftS graftT (· + 100) (· + 200) false (fun _ => false) (fun _ => false)).seenS = true := by
   decide +kernel
 
-/-- **why the `finally` guard is `not (copy and matchings)`**: `diff(t, t)` without matchings under the old guard leaves
-    `_hash` cached on the input -/
+/-- `diff()` between 6c26962 and b176b7b: evicts every input node's hash -/
+def evictAllInputs : Policy := ⟨.whenShared, .whenShared, .unlessCopiesHashed⟩
+
+/-- a subtree input of an already hashed tree: object 0 is the outer root (not an input), 1 and 11 are the inputs -/
+def subS : Walk := [⟨1, none, some 0⟩]
+def subT : Walk := [⟨11, none, none⟩]
+
+/-- **why `finally` may evict only what `diff()` cached itself**: diffing the subtree 1 of the hashed tree 0 → 1 under
+    the evict-all policy leaves the ancestor 0 hashed above an unhashed 1 (a later edit below 1 stops invalidating at 1:
+    the root keeps a stale hash); today's policy leaves both as they were -/
+theorem evict_all_breaks_ancestors_witness :
+    (runDiff evictAllInputs subS subT (· + 100) (· + 200) false (fun _ => false) (fun x => x == 0 || x == 1)).hashAfter 1 = false ∧
+    (runDiff evictAllInputs subS subT (· + 100) (· + 200) false (fun _ => false) (fun x => x == 0 || x == 1)).hashAfter 0 = true ∧
+    (runDiff today subS subT (· + 100) (· + 200) false (fun _ => false) (fun x => x == 0 || x == 1)).hashAfter 1 = true ∧
+    (runDiff today subS subT (· + 100) (· + 200) false (fun _ => false) (fun x => x == 0 || x == 1)).hashAfter 11 = false := by
+  decide +kernel
+
+/-- **why the `finally` guard is `not (copy and matchings)`** (explicit snapshot of the policy before 6c26962):
+    `diff(t, t)` without matchings under the old guard leaves `_hash` cached on the input -/
 theorem stale_hash_witness :
     (runDiff beforeHashFix [⟨0, none, none⟩] [⟨0, none, none⟩] (· + 100) (· + 200) false (fun _ => false) (fun _ => false)).hashAfter 0 = true ∧
     (runDiff today [⟨0, none, none⟩] [⟨0, none, none⟩] (· + 100) (· + 200) false (fun _ => false) (fun _ => false)).hashAfter 0 = false := by
